@@ -263,6 +263,18 @@ func runReplay(b behaviour) caseResult {
 				}
 				return ""
 			}
+			if s.A == "Done" {
+				// parked at mon.done: the decision to resume the publish loop is made (activeSubs); it does not
+				// depend on the schedule, so a difference from the specification is a deviation of the monitor
+				if p := e.ctl.parkedAt("mon"); p != nil && p.point == "mon.done" {
+					real, _ := p.kv["activeSubs"].(int)
+					if (real > 0) != (s.xi() > 0) {
+						subs, _, _, _, _ := e.subState(2 * time.Second)
+						return fmt.Sprintf("DEVIATES step %d mon Done: the monitor ends the reconnect with activeSubs=%d (resume: %v), the specification with %d; registered subscriptions %v",
+							i, real, real > 0, s.xi(), subs)
+					}
+				}
+			}
 			if !e.ctl.release("mon") {
 				return fmt.Sprintf("step %d mon %s: the monitor is not parked", i, s.A)
 			}
@@ -496,6 +508,9 @@ func runReplay(b behaviour) caseResult {
 	callErr.Range(func(k, v any) bool { errs[k.(string)] = v.(string); return true })
 	if len(errs) > 0 {
 		obs["call_errors"] = errs
+	}
+	if strings.HasPrefix(drift, "DEVIATES") {
+		res.Status, res.Key, res.Detail = "violation", "monitor-resume-decision-differs-from-specification", drift
 	}
 	if strings.HasPrefix(drift, "BLOCKED") {
 		// takes precedence over whatever the free run shows: the code blocked earlier than the as-is model says
